@@ -72,45 +72,35 @@ def keep(pid, wt, verify, sid=None):
 
 
 def run(sid, allprops=False):
+    """run the quick tier of the checks against /repo's current tree with the
+    seed's patch applied IN MEMORY (nothing is written to /repo), record
+    the outcome in meta.json"""
+    sys.path.insert(0, HERE)
+    sys.path.insert(0, os.path.join(HERE, 'tools'))
+    from concurrent.futures import ProcessPoolExecutor
+    import trypatch
     d = os.path.join(SEEDED, sid)
     meta = json.load(open(os.path.join(d, 'meta.json')))
-    rc, o = sh('git status --porcelain', '/repo')
-    if o.strip():
-        print('/repo is not clean:\n' + o)
-        return 2
-    rc, o = sh('git apply %s' % os.path.join(d, 'patch.diff'), '/repo')
-    if rc != 0:
-        print('patch does not apply:', o)
-        return 2
+    text = open(os.path.join(d, 'patch.diff')).read()
+    rc, o = sh('git apply --check %s' % os.path.join(d, 'patch.diff'),
+               '/repo')
+    meta['applies_to_repo_head'] = rc == 0
+    props = ['C%02d' % i for i in range(1, 21)] if allprops \
+        else [meta['property']]
+    with ProcessPoolExecutor(max_workers=16) as ex:
+        res = list(ex.map(trypatch.one, [(p, text) for p in props]))
     results = {}
-    try:
-        props = ['C%02d' % i for i in range(1, 21)] if allprops \
-            else [meta['property']]
-        for p in props:
-            rc, o = sh('%s check.py %s --tier quick' % (PY, p), HERE)
-            finds = [ln for ln in o.splitlines()
-                     if ln.startswith('FINDING')]
-            results[p] = {'exit': rc,
-                          'findings': [f[:300] for f in finds][:6]}
-    finally:
-        sh('git checkout -- .', '/repo')
-        # evidence files must describe the unchanged tree
-        sh('git checkout -- evidence', HERE)
-        for f in glob.glob(os.path.join(HERE, 'evidence',
-                                        '*.violations.json')):
-            os.remove(f)
+    for prop, status, hits in res:
+        results[prop] = {'exit': 1 if hits else (2 if status != 'ok' else 0),
+                         'findings': [h[:300] for h in hits][:6]}
     meta.setdefault('checks', {}).update(results)
     own = results.get(meta['property'], {})
     meta['detected_by_own_check'] = own.get('exit') == 1
     meta['detected_by'] = sorted(p for p, r in meta['checks'].items()
                                  if r['exit'] == 1)
     json.dump(meta, open(os.path.join(d, 'meta.json'), 'w'), indent=1)
-    for p, r in results.items():
-        if r['exit'] != 0:
-            print(p, 'exit', r['exit'])
-            for f in r['findings']:
-                print('   ', f[:200])
-    print(sid, 'detected by', meta['detected_by'])
+    print(sid, 'applies:', meta['applies_to_repo_head'], 'detected by',
+          meta['detected_by'])
     return 0
 
 
@@ -123,8 +113,9 @@ def table():
         for p in m.get('detected_by', []):
             for f in m['checks'][p]['findings'][:2]:
                 parts = f.split()
-                if len(parts) > 2:
-                    rules.append(parts[2])
+                for w in parts[:3]:
+                    if w.startswith(p + '.R'):
+                        rules.append(w)
         print('| %s | %s | %s | %s |' % (
             m['seed'], m['property'], ', '.join(m['files']),
             ', '.join(sorted(set(rules))) or '**missed**'))
